@@ -33,6 +33,7 @@ def decl_specs(tier):
         K = alphabet.make_decl([c], None, 'c')
         K['name'] = 'Mid'
         specs.append({'P': ir.PKT('Top', [('pre', ir.I(1)), ('mid', ir.R(K)), ('post', ir.I(1))]), 'tag': 'depth2-' + c})
+    specs.extend(alphabet.families())
     return specs
 
 
